@@ -1,1 +1,43 @@
-fn main() { let _ = vcommon::Ctx::from_args(); }
+//! vh-sched: schedule-controlled concurrency checks (C33, C40–C44).  See DESIGN.md §0.4 and
+//! `build.rs` (generation of the instrumented source copies) and `vsched.rs` (the runtime they
+//! are compiled against).
+extern crate alloc;
+
+// `pub mod afc_inst` / `pub mod text_inst` (instrumented copies, generated) + INST_MANIFEST
+include!(concat!(env!("OUT_DIR"), "/inst_root.rs"));
+
+mod c33;
+mod c43;
+mod c44;
+mod vsched;
+
+#[global_allocator]
+static GLOBAL: vsched::qalloc::Quarantine = vsched::qalloc::Quarantine;
+
+fn main() {
+    let ctx = vcommon::Ctx::from_args();
+    ctx.watchdog(ctx.pick(900, 7200));
+    match ctx.prop.as_str() {
+        "C33" => c33::run(&ctx),
+        "C43" => c43::run(&ctx),
+        "C44" => c44::run(&ctx),
+        p => {
+            println!("INCONCLUSIVE vh-sched does not serve {p}");
+            std::process::exit(2);
+        }
+    }
+}
+
+/// Common assumptions of every part that runs on the schedule-controlled engine.
+pub fn engine_assumptions(rep: &mut vcommon::Report<'_>) {
+    rep.assume(
+        "schedule-controlled engine: the checked code is a textual copy of /repo's source with atomics, the futex \
+         syscall, sched_yield/spin_loop and std::sync::Mutex routed to the shuttle scheduler (substitution list \
+         asserted at build time); interleavings are explored at the granularity of these operations under \
+         sequential consistency only (no weak-memory reorderings)",
+    );
+    rep.assume(
+        "schedules are sampled (seeded uniform-random scheduler, PCT in the thorough tier), not enumerated; \
+         executions cut off by the step bound are counted as inconclusive, never as violations",
+    );
+}
